@@ -26,10 +26,22 @@ pub fn write_ndjson(path: &str, recs: &[Value]) {
     let f = std::fs::File::create(path).unwrap_or_else(|e| panic!("cannot create {path}: {e}"));
     let mut w = BufWriter::new(f);
     for r in recs {
+        // TLC's Json module cannot read null: drop null members
+        let r = &strip_nulls(r.clone());
         serde_json::to_writer(&mut w, r).unwrap();
         w.write_all(b"\n").unwrap();
     }
     w.flush().unwrap();
+}
+
+pub fn strip_nulls(v: Value) -> Value {
+    match v {
+        Value::Object(m) => Value::Object(
+            m.into_iter().filter(|(_, x)| !x.is_null()).map(|(k, x)| (k, strip_nulls(x))).collect(),
+        ),
+        Value::Array(a) => Value::Array(a.into_iter().map(strip_nulls).collect()),
+        x => x,
+    }
 }
 
 /// Install a quiet panic hook (the library's `Pipe::new` installs a
